@@ -82,18 +82,18 @@ type dbViolation struct {
 }
 
 type dbsimOutcome struct {
-	vs        []dbViolation
-	steps     int
-	simTime   time.Duration
-	pickHash  uint64
-	tasks     int
-	compacted int
-	flushed   int
-	partial   int
-	cycles    int
-	tablesMax int
-	trace     []simrt.Event
-	hist      []*opRec
+	vs                      []dbViolation
+	steps                   int
+	simTime                 time.Duration
+	pickHash                uint64
+	tasks                   int
+	compacted               int
+	flushed                 int
+	partial                 int
+	cycles                  int
+	tablesMax               int
+	trace                   []simrt.Event
+	hist                    []*opRec
 	maxHandles, maxMappings int
 }
 
